@@ -383,6 +383,21 @@ func extractC17() *lean {
 	l.def("vcJwtSignatureCalls", "List String", leanStrList(vjCalls), vjCalls)
 	vl := c17ErrConds(funcDecl(svF, "jsonldProof"))
 	l.def("vcJsonLdErrConds", "List String", leanStrList(vl), vl)
+	// does jsonldProof rewrite the `proof` member before unmarshalling it (e.g. pick an element of a proof array)?
+	var proofAssign []string
+	if fd := funcDecl(svF, "jsonldProof"); fd != nil {
+		ast.Inspect(fd, func(n ast.Node) bool {
+			if as, ok := n.(*ast.AssignStmt); ok {
+				for _, lhs := range as.Lhs {
+					if strings.Contains(c17Src(lhs), `["proof"]`) {
+						proofAssign = append(proofAssign, c17Src(as))
+					}
+				}
+			}
+			return true
+		})
+	}
+	l.def("vcJsonLdProofAssignments", "List String", leanStrList(proofAssign), proofAssign)
 	vlCalls := c17Calls(funcDecl(svF, "jsonldProof"))
 	l.def("vcJsonLdCalls", "List String", leanStrList(vlCalls), vlCalls)
 	// ---- process-global allow-list and verifier wiring: who calls AddSupportedAlgorithm / installs the DAG signature verifier
